@@ -23,7 +23,8 @@
     Quantification: all schemas, documents, variable environments, outcome trees — no bound. *)
 From Coq Require Import List NArith ZArith Bool.
 From ApiFu Require Import Base.Sexp Exe.ExecData Exe.ExecModel Exe.ExecSpec Exe.ExecHyps
-     Exe.ExecBaseProofs Exe.ExecSpecProofs Exe.ExecCacheProofs Exe.ExecProofs.
+     Exe.ExecBaseProofs Exe.ExecSpecProofs Exe.ExecCacheProofs Exe.ExecProofs
+     Exe.ExecOrderProofs Exe.ExecShapeProofs Exe.ExecFuelProofs.
 Import ListNotations.
 
 (** The executor finishes: no panic, fragment expansion never runs out of fuel. *)
@@ -76,6 +77,53 @@ Theorem C01_collect_cache_transparent : forall S D E fuel W,
   run fixed S D E fuel W = run fixed_nomemo S D E fuel W.
 Proof. exact (fun S D E fuel W Hn Hp => collect_cache_transparent S D E fuel Hn Hp W). Qed.
 
+(** stage 2: response keys are in document order after fragment expansion, merging and
+    @skip/@include: the root object's keys are the response keys of the collected field nodes
+    ([s_collect_flat]: the selected field nodes in document order) in order of first appearance.
+    [C01_selection_set_order] says the same of every selection set the reference executes, at
+    any depth (and data is the reference's data, C01_exec_data_eq). *)
+Theorem C01_exec_order : forall S D E fuel n W j errs,
+  type_names_okb S = true -> doc_positions_okb D = true -> doc_ok S D E fuel n = true ->
+  run fixed S D E fuel W = Done (Some j) errs ->
+  exists rt visited flat kvs,
+    s_root_type S (op_kind D) = Some rt /\
+    s_collect_flat S D E fuel rt (op_sels D) [] = Some (visited, flat) /\
+    j = JObj kvs /\ map fst kvs = first_occurrences (map fst flat) [].
+Proof. exact (fun S D E fuel n W j errs => exec_order S D E fuel n W j errs). Qed.
+
+Theorem C01_selection_set_order : forall S D E fuel n children ot sels path j,
+  sels_ok S D E fuel n ot sels = true ->
+  so_val (s_selection_set S D E fuel children ot sels path) = Some j ->
+  exists visited flat kvs,
+    s_collect_flat S D E fuel ot sels [] = Some (visited, flat) /\
+    j = JObj kvs /\ map fst kvs = first_occurrences (map fst flat) [].
+Proof. exact (fun S D E fuel n children ot sels path j => selection_set_order S D E fuel n children ot sels path j). Qed.
+
+(** stage 2: the shape of every reported error.  It belongs to a field instance of the execution
+    ([field_instance]: a field at response path p selected by the field nodes [fields], reached
+    from the root through collected fields, list items and resolved object types); its path is p,
+    continued by list indices when the failure is inside a list value; its locations are the
+    position of the first field node, or the positions of ALL field nodes that selected the field
+    when the resolver itself failed. *)
+Theorem C01_exec_error_shape : forall S D E fuel n W d errs rt e,
+  type_names_okb S = true -> doc_positions_okb D = true -> doc_ok S D E fuel n = true ->
+  run fixed S D E fuel W = Done d errs ->
+  s_root_type S (op_kind D) = Some rt -> In e errs ->
+  exists p fields,
+    field_instance S D E fuel rt W (op_sels D) [] p fields /\
+    exists idxs, e_path e = p ++ map PIdx idxs /\
+                 (e_locs e = first_loc fields \/ (idxs = [] /\ e_locs e = map fn_pos fields)).
+Proof. exact exec_error_shape. Qed.
+
+(** the fuel bound: with [default_fuel D] = (fragment definitions + 1) * (nesting depth + 1),
+    CollectFields never runs out of fuel on a selection list no deeper than the document (the
+    operation's selections, a fragment body, merged sub-selections of collected fields) — so
+    [doc_ok S D E (default_fuel D) n] can only fail for typing reasons. *)
+Theorem C01_collect_fuel_sufficient : forall S D E ot sels visited,
+  (sels_depth sels <= doc_depth D)%nat ->
+  s_collect_flat S D E (default_fuel D) ot sels visited <> None.
+Proof. exact collect_fuel_sufficient. Qed.
+
 (** the reference's bookkeeping is coherent: in what the spec returns no two errors share a path,
     every error lies under the path of the value it was raised in, and the errors that explain a
     failure null were recorded. *)
@@ -120,6 +168,10 @@ Print Assumptions C01_exec_errors_sound.
 Print Assumptions C01_exec_errors_subseq.
 Print Assumptions C01_exec_errors_complete.
 Print Assumptions C01_collect_cache_transparent.
+Print Assumptions C01_exec_order.
+Print Assumptions C01_selection_set_order.
+Print Assumptions C01_exec_error_shape.
+Print Assumptions C01_collect_fuel_sufficient.
 Print Assumptions C01_spec_selection_set_wf.
 Print Assumptions C01_int_result_in_range.
 Print Assumptions C01_exec_data_finite.
